@@ -68,6 +68,33 @@ type graph struct {
 	// modules of a project that cannot be fetched (`example.com/x//lib:m<i>.dawn`): their environment cannot be set
 	// up, so they fail before executing anything; they have no file and load nothing
 	broken []int
+	// those of `broken` that are local files with a syntax error instead (they fail in ExecFile, after the environment
+	// was set up; to the loader - and to the model - that is the same: executed once, nothing loaded, finished with an error)
+	syntax []int
+}
+
+func (g *graph) isSyntax(m int) bool {
+	for _, b := range g.syntax {
+		if b == m {
+			return true
+		}
+	}
+	return false
+}
+
+// the graph as the Lean driver reads it (without the syntax-error marker)
+func (g *graph) modelString() string {
+	h := *g
+	h.syntax = nil
+	return h.String()
+}
+
+func (g *graph) clone() *graph {
+	h := &graph{roots: append([]int{}, g.roots...), broken: append([]int{}, g.broken...), syntax: append([]int{}, g.syntax...)}
+	for _, l := range g.loads {
+		h.loads = append(h.loads, append([]int{}, l...))
+	}
+	return h
 }
 
 func (g *graph) isBroken(m int) bool {
@@ -102,13 +129,20 @@ func (g *graph) String() string {
 			bs = append(bs, strconv.Itoa(b))
 		}
 		out += "/" + strings.Join(bs, ",")
+		if len(g.syntax) > 0 {
+			var ss []string
+			for _, b := range g.syntax {
+				ss = append(ss, strconv.Itoa(b))
+			}
+			out += "/" + strings.Join(ss, ",")
+		}
 	}
 	return out
 }
 
 func parseGraph(s string) (*graph, error) {
 	parts := strings.Split(s, "/")
-	if len(parts) != 2 && len(parts) != 3 {
+	if len(parts) < 2 || len(parts) > 4 {
 		return nil, fmt.Errorf("bad graph %q", s)
 	}
 	nums := func(s string) ([]int, error) {
@@ -137,13 +171,18 @@ func parseGraph(s string) (*graph, error) {
 		}
 		g.loads = append(g.loads, xs)
 	}
-	if len(parts) == 3 {
+	if len(parts) >= 3 {
 		if g.broken, err = nums(parts[2]); err != nil {
 			return nil, err
 		}
+		if len(parts) == 4 {
+			if g.syntax, err = nums(parts[3]); err != nil {
+				return nil, err
+			}
+		}
 		for _, b := range g.broken {
-			if b < len(g.roots) || b >= len(g.loads) || len(g.loads[b]) != 0 {
-				return nil, fmt.Errorf("broken module %d must be a helper without loads", b)
+			if b < 0 || b >= len(g.loads) || len(g.loads[b]) != 0 || (b < len(g.roots) && !g.isSyntax(b)) {
+				return nil, fmt.Errorf("broken module %d must be without loads (and a helper unless it is a syntax error)", b)
 			}
 		}
 	}
@@ -178,7 +217,7 @@ func (g *graph) file(m int) string {
 
 func (g *graph) label(m int) string {
 	l := &label.Label{Kind: "module", Package: g.pkg(m), Name: g.file(m)}
-	if g.isBroken(m) {
+	if g.isBroken(m) && !g.isSyntax(m) {
 		l.Project = "example.com/x"
 	}
 	return l.String()
@@ -224,13 +263,16 @@ func (g *graph) write(root string) error {
 		return err
 	}
 	for m := range g.loads {
-		if g.isBroken(m) {
+		if g.isBroken(m) && !g.isSyntax(m) {
 			continue
 		}
 		var b strings.Builder
+		if g.isSyntax(m) {
+			b.WriteString("def broken(:\n")
+		}
 		for i, d := range g.loads[m] {
 			ref := g.pkg(d) + ":" + g.file(d)
-			if g.isBroken(d) {
+			if g.isBroken(d) && !g.isSyntax(d) {
 				ref = "example.com/x" + ref
 			} else if g.pkg(d) == g.pkg(m) && (m+i)%2 == 0 {
 				ref = ":" + g.file(d) // relative form
@@ -391,6 +433,69 @@ func genGraph(r *rng, kind string) *graph {
 
 // set once the Lean model covers modules whose environment cannot be set up (graphs with a third component)
 const modelHasBroken = true
+
+// genSequence: a tree that loads, followed by 1-3 edited versions of it for Reload: unchanged, a module file with a
+// syntax error (and its repair), a module added, a load removed, a cycle introduced (and removed again)
+func genSequence(r *rng) []*graph {
+	var base *graph
+	for {
+		base = genGraph(r, []string{"chain", "diamond", "shared", "dag", "crossroot", "shared"}[r.below(6)])
+		if _, cyc := base.analyse(); !cyc && len(base.broken) == 0 {
+			break
+		}
+	}
+	seqs := []*graph{base}
+	good := base
+	breaking := false
+	k := 1 + r.below(3)
+	for i := 0; i < k; i++ {
+		if breaking && r.below(2) == 0 {
+			seqs = append(seqs, good.clone()) // the repair
+			breaking = false
+			continue
+		}
+		h := good.clone()
+		breaking = false
+		switch r.below(5) {
+		case 0: // unchanged
+		case 1: // a syntax error in some module file
+			m := r.below(len(h.loads))
+			h.loads[m] = nil
+			h.broken = append(h.broken, m)
+			h.syntax = append(h.syntax, m)
+			breaking = true
+		case 2: // a new helper, loaded by an existing module
+			n := len(h.loads)
+			h.loads = append(h.loads, nil)
+			x := r.below(n)
+			h.loads[x] = append(h.loads[x], n)
+		case 3: // a load statement removed
+			x := r.below(len(h.loads))
+			if len(h.loads[x]) > 0 {
+				h.loads[x] = h.loads[x][:len(h.loads[x])-1]
+			}
+		case 4: // a helper that loads itself
+			if len(h.loads) > len(h.roots) {
+				x := len(h.roots) + r.below(len(h.loads)-len(h.roots))
+				h.loads[x] = append(h.loads[x], x)
+				breaking = true
+			}
+		}
+		seqs = append(seqs, h)
+		if !breaking {
+			good = h
+		}
+	}
+	return seqs
+}
+
+func seqString(gs []*graph) string {
+	var ss []string
+	for _, g := range gs {
+		ss = append(ss, g.String())
+	}
+	return strings.Join(ss, " => ")
+}
 
 var kinds = []string{"chain", "diamond", "shared", "cycle", "self", "crossroot", "dag", "random", "shared", "cycle", "foreign"}
 
@@ -651,9 +756,30 @@ type loadOut struct {
 	err  error
 }
 
-func startLoad(root string, r *lrun, ev *events) chan loadOut {
+// a Project that is loaded once and then reloaded (Project.Reload, as watch mode and GC do)
+type session struct {
+	proj *dawn.Project
+	ev   *events
+}
+
+func (e *events) reset() {
+	e.mu.Lock()
+	e.loading = map[string]int{}
+	e.mu.Unlock()
+}
+
+func startLoad(root string, r *lrun, ev *events, sess *session) chan loadOut {
+	if sess != nil && sess.proj != nil {
+		ch := make(chan loadOut, 1)
+		go func() {
+			err := sess.proj.Reload()
+			ch <- loadOut{sess.proj, err}
+		}()
+		return ch
+	}
 	slow := starlark.NewBuiltin("slow", func(*starlark.Thread, *starlark.Builtin, starlark.Tuple, []starlark.Tuple) (starlark.Value, error) {
-		if r.slowMax > 0 {
+		r := cur // the run in progress (a Project outlives the run that created it when it is reloaded)
+		if r != nil && r.slowMax > 0 {
 			r.mu.Lock()
 			d := r.slowRng.below(r.slowMax)
 			r.mu.Unlock()
@@ -668,6 +794,9 @@ func startLoad(root string, r *lrun, ev *events) chan loadOut {
 	ch := make(chan loadOut, 1)
 	go func() {
 		proj, err := dawn.Load(root, &dawn.LoadOptions{Events: ev, Builtins: starlark.StringDict{"slow": slow}})
+		if sess != nil {
+			sess.proj, sess.ev = proj, ev
+		}
 		ch <- loadOut{proj, err}
 	}()
 	return ch
@@ -758,12 +887,25 @@ func (res *lresult) collect(r *lrun, ev *events, lo *loadOut) {
 
 // runControlled loads the tree at root with the loader goroutines serialised by choose.
 func runControlled(g *graph, root string, choose chooser) *lresult {
+	return runControlledS(g, root, choose, nil)
+}
+
+func sessionEvents(sess *session) *events {
+	if sess != nil && sess.proj != nil {
+		sess.ev.reset()
+		return sess.ev
+	}
+	return &events{loading: map[string]int{}}
+}
+
+// runControlledS: with a session whose Project exists already, the load is a Reload of that Project
+func runControlledS(g *graph, root string, choose chooser, sess *session) *lresult {
 	r := newLrun(g, true)
-	ev := &events{loading: map[string]int{}}
+	ev := sessionEvents(sess)
 	res := &lresult{}
 	r.outstanding = len(g.roots) // every loader goroutine parks at its begin hook
 	cur = r
-	loadCh := startLoad(root, r, ev)
+	loadCh := startLoad(root, r, ev, sess)
 	quiesce := func() bool {
 		for {
 			r.mu.Lock()
@@ -876,13 +1018,17 @@ func runControlled(g *graph, root string, choose chooser) *lresult {
 
 // runFree loads the tree with no controller; slow() sleeps up to slowMax microseconds.
 func runFree(g *graph, root string, seed uint64, slowMax int, timeout time.Duration) *lresult {
+	return runFreeS(g, root, seed, slowMax, timeout, nil)
+}
+
+func runFreeS(g *graph, root string, seed uint64, slowMax int, timeout time.Duration, sess *session) *lresult {
 	r := newLrun(g, false)
 	r.slowRng = &rng{seed}
 	r.slowMax = slowMax
-	ev := &events{loading: map[string]int{}}
+	ev := sessionEvents(sess)
 	res := &lresult{outcome: "done"}
 	cur = r
-	loadCh := startLoad(root, r, ev)
+	loadCh := startLoad(root, r, ev, sess)
 	var lo *loadOut
 	select {
 	case x := <-loadCh:
@@ -922,6 +1068,14 @@ var (
 	nviol = 0
 )
 
+// the loads already made on the Project of the sequence in progress (nil: a single Load)
+type seqContext struct {
+	graphs    []string
+	decisions [][]int
+}
+
+var seq *seqContext
+
 func violation(kind string, g *graph, res *lresult, mode string, detail string) {
 	nviol++
 	stats["violations"]++
@@ -930,6 +1084,17 @@ func violation(kind string, g *graph, res *lresult, mode string, detail string) 
 		return
 	}
 	in := map[string]any{"graph": g.String(), "mode": mode, "schedule": res.decisions}
+	if seq != nil {
+		// a (re)load of a sequence on one Project: the replay is the whole sequence up to here
+		gs := append(append([]string{}, seq.graphs...), g.String())
+		sched := []int{}
+		for _, d := range seq.decisions {
+			sched = append(append(sched, d...), -1)
+		}
+		sched = append(sched, res.decisions...)
+		in = map[string]any{"graph": strings.Join(gs, " => "), "mode": "reload-" + mode, "schedule": sched}
+		detail = fmt.Sprintf("load %d of the sequence (Load, then Reload on the same Project): %s", len(seq.graphs)+1, detail)
+	}
 	b, _ := json.Marshal(map[string]any{"kind": kind, "detail": detail, "trace": strings.Join(res.trace, ","), "input": in})
 	fmt.Fprintf(out, "V\t%s\n", b)
 }
@@ -996,7 +1161,7 @@ func emitTrace(stream, ver string, g *graph, res *lresult) {
 	if len(res.trace) > 0 {
 		tr = strings.Join(res.trace, ",")
 	}
-	fmt.Fprintf(out, "C\t%s\ttrace %s %s %s\tok %s\n", stream, ver, g.String(), tr, res.final)
+	fmt.Fprintf(out, "C\t%s\ttrace %s %s %s\tok %s\n", stream, ver, g.modelString(), tr, res.final)
 	stats["traces_"+stream]++
 }
 
@@ -1106,7 +1271,110 @@ func tempBase() string {
 	return ""
 }
 
+// rewriteTree replaces the generated files of the tree by those of g (the project's .dawn directory stays)
+func rewriteTree(root string, g *graph) error {
+	ents, err := os.ReadDir(root)
+	if err != nil {
+		return err
+	}
+	for _, e := range ents {
+		if e.IsDir() && e.Name() != ".dawn" {
+			if err := os.RemoveAll(filepath.Join(root, e.Name())); err != nil {
+				return err
+			}
+		}
+	}
+	return g.write(root)
+}
+
+// runReloadJob: Load the first tree, then edit the tree and Reload the same Project for every further graph. Every
+// (re)load is judged like a fresh Load of the tree as it is then, and its trace must be a run of the model from the
+// initial state (empty registry).
+func runReloadJob(j job) {
+	var graphs []*graph
+	for _, gs := range strings.Split(j.Graph, " => ") {
+		g, err := parseGraph(gs)
+		if err != nil {
+			fmt.Fprintln(os.Stderr, err)
+			return
+		}
+		graphs = append(graphs, g)
+	}
+	root, err := os.MkdirTemp(tempBase(), "verif-loader")
+	if err != nil {
+		panic(err)
+	}
+	defer os.RemoveAll(root)
+	r := &rng{j.Seed}
+	// the replay schedule: one part per load, separated by -1
+	var parts [][]int
+	part := []int{}
+	for _, d := range j.Schedule {
+		if d == -1 {
+			parts = append(parts, part)
+			part = []int{}
+		} else {
+			part = append(part, d)
+		}
+	}
+	parts = append(parts, part)
+	for i := 0; i < j.N; i++ {
+		sess := &session{}
+		seq = &seqContext{}
+		for li, g := range graphs {
+			if err := rewriteTree(root, g); err != nil {
+				panic(err)
+			}
+			var res *lresult
+			mode := "sched"
+			switch j.Mode {
+			case "reload-random":
+				res = runControlledS(g, root, randomChooser(r), sess)
+			case "reload-pct":
+				res = runControlledS(g, root, pctChooser(r, len(g.roots), 1+r.below(3)), sess)
+			case "reload-replay":
+				var sc []int
+				if li < len(parts) {
+					sc = parts[li]
+				}
+				res = runControlledS(g, root, replayChooser(sc), sess)
+			default: // reload-free
+				mode = "free"
+				res = runFreeS(g, root, r.next(), j.SlowMax, time.Duration(j.FreeTimeoutMs)*time.Millisecond, sess)
+			}
+			if li == 0 {
+				stats["reload_sequences"]++
+			} else {
+				stats["reloads_"+mode]++
+			}
+			before := nviol
+			stats["fairness_overrides"] += res.fairness
+			judge(g, res, mode)
+			stream := "loader.reload"
+			if mode == "free" {
+				stream = "loader.reload-stress"
+			}
+			if j.Trace > 0 && (i%j.Trace == 0 || nviol > before) {
+				emitTrace(stream, j.Ver, g, res)
+			}
+			if j.Mode == "reload-replay" {
+				fmt.Fprintf(out, "# load %d outcome %s final %s trace %s\n", li+1, res.outcome, res.final, strings.Join(res.trace, ","))
+			}
+			seq.graphs = append(seq.graphs, g.String())
+			seq.decisions = append(seq.decisions, res.decisions)
+			if res.outcome != "done" || sess.proj == nil {
+				break // hung, or the very first Load failed: there is no Project to reload
+			}
+		}
+		seq = nil
+	}
+}
+
 func runJob(j job, idx int) {
+	if strings.HasPrefix(j.Mode, "reload-") {
+		runReloadJob(j)
+		return
+	}
 	g, err := parseGraph(j.Graph)
 	if err != nil {
 		fmt.Fprintln(os.Stderr, err)
@@ -1291,7 +1559,12 @@ func main() {
 			os.Exit(2)
 		}
 		j := job{Graph: in.Graph, Mode: "replay", N: 1, Schedule: in.Schedule, Ver: *ver, Trace: 1}
-		if in.Mode == "free" {
+		if strings.Contains(in.Graph, " => ") {
+			j.Mode = "reload-replay"
+			if in.Mode == "reload-free" {
+				j = job{Graph: in.Graph, Mode: "reload-free", N: 100, Seed: *seed, Ver: *ver, SlowMax: 300, Trace: 50, FreeTimeoutMs: 3000}
+			}
+		} else if in.Mode == "free" {
 			j = job{Graph: in.Graph, Mode: "free", N: 300, Seed: *seed, Ver: *ver, SlowMax: 300, Trace: 50, FreeTimeoutMs: 3000}
 		}
 		runBatches([][]job{{j}}, 5*time.Minute, 1)
@@ -1376,6 +1649,31 @@ func main() {
 		jobs = append(jobs, job{Graph: g.String(), Mode: "pct", N: perG, Seed: r.next(), Ver: *ver, Trace: 2})
 		jobs = append(jobs, job{Graph: g.String(), Mode: "free", N: freeG, Seed: r.next(), Ver: *ver, SlowMax: 200, Trace: 2, FreeTimeoutMs: freeMs})
 	}
+	// 4. reload sequences: Load, then edit the tree and Reload the same Project 1-3 times (watch mode, GC, library callers)
+	nSeq, perS, freeS := 40, 5, 3
+	if thorough {
+		nSeq, perS, freeS = 500, 15, 8
+	}
+	fixedSeqs := []string{
+		"0,1/2;2;3;- => 0,1/2;2;3;-",                       // unchanged tree
+		"0/1;- => 0/1;-/1/1 => 0/1;-",                      // a syntax error introduced and repaired
+		"0,1/2;2;- => 0,1/2;2;3;- => 0,1/2;2;-",            // unused helper file added and removed
+		"0/1;2;- => 0/1;2,3;-;- => 0/1;-;-;-",              // a load added, then loads removed
+		"0/1;2;- => 0/1;2;1 => 0/1;2;-",                    // a cycle introduced and removed
+		"0,1/2;2;- => 0,1/2;2;- => 0,1/2;2;- => 0,1/2;2;-", // three reloads
+	}
+	for i := 0; i < nSeq+len(fixedSeqs); i++ {
+		var gs string
+		if i < len(fixedSeqs) {
+			gs = fixedSeqs[i]
+		} else {
+			gs = seqString(genSequence(r))
+		}
+		jobs = append(jobs, job{Graph: gs, Mode: "reload-random", N: perS, Seed: r.next(), Ver: *ver, Trace: 1})
+		jobs = append(jobs, job{Graph: gs, Mode: "reload-pct", N: perS, Seed: r.next(), Ver: *ver, Trace: 1})
+		jobs = append(jobs, job{Graph: gs, Mode: "reload-free", N: freeS, Seed: r.next(), Ver: *ver, SlowMax: 200, Trace: 1, FreeTimeoutMs: freeMs})
+	}
+	stats["reload_sequences_generated"] = nSeq + len(fixedSeqs)
 	stats["graphs_small"] = len(small)
 	stats["graphs_generated"] = nGraphs
 	// batches of jobs, each in its own child process under a watchdog
